@@ -52,6 +52,13 @@ def contracts():
     cs += common.shared(X_ctor, ['core.CoalesceError.get_message', 'core.UnregisteredTarget.get_message', 'matching.CheckError.get_message',
                                  'core.PathAssignError.get_message', 'mutation.PathDeleteError.get_message', 'core.CoalesceError.__init__',
                                  'core.PathAssignError.__init__', 'matching.CheckError.__init__'])
+    # branching specs: which branches are attempted and under which scope (contracts of C10), argument evaluation
+    from contracts import C10
+    cs += common.shared(C10, ['matching.Switch.glomit', 'matching.Or._glomit', 'matching.And._glomit', 'matching.Not.glomit', 'matching._Bool.glomit'])
+    cs += common.shared(C08, ['core.arg_val', 'core._ArgValuator.mode'])
+    cs += common.shared(C03, ['core._has_callable_glomit'])
+    from contracts import extra as _ex
+    cs.append(_ex.bbrepr_facts())
     return cs
 
 
